@@ -484,11 +484,12 @@ def plan(ctx):
                         c.append({"kind": "cadence", "base": ctx.seed, "all_checkpoints": th, "cfg": dict(clustering=True, cluster_every=ce, ess_ratio=ratio, sample=kern, normalize=norm,
                                                                                  n_max_clusters=cap, target="unequal" if (ce + int(ratio)) % 2 else "bimodal",
                                                                                  n_particles=32 if (ce + int(ratio)) % 2 else 24, n_total=96)})
-    for npart in (1, 2):
+    for npart in (1, 2):  # one / two active particles: every prediction the pipeline makes is a one- or two-row query; several tapes, longer runs (they are cheap)
         for kern in ("tpcn", "rwm"):
             for tgt in ("bimodal", "unequal"):
-                c.append({"kind": "cadence", "base": ctx.seed, "all_checkpoints": False, "cfg": dict(clustering=True, cluster_every=1 + (npart % 2), ess_ratio=4.0, sample=kern, normalize=True,
-                                                                                                     n_max_clusters=None, target=tgt, n_particles=npart, n_total=12)})
+                for tape in range(6 if th else 3):
+                    c.append({"kind": "cadence", "base": ctx.seed + 1000 * tape, "all_checkpoints": False, "cfg": dict(clustering=True, cluster_every=1 + (npart % 2), ess_ratio=4.0 * (1 + tape % 2), sample=kern, normalize=True,
+                                                                                                                        n_max_clusters=None, target=tgt, n_particles=npart, n_total=40)})
     ctx.bounds.update({"scripted": {"K": [2, 3], "m": [4, 5, 6], "n_resampled": 3}, "cadence": {"cluster_every": [1, 2, 3, 4, 5, 7], "configs": len(c), "resume": "from every checkpoint"}})
     if not th:
         ctx.notes.append("quick: one quarter of the cadence lattice and one eighth of the three-blob pools (rotated by VERIF_SEED); every selected run is resumed from every checkpoint")
